@@ -3,7 +3,7 @@
    implementation's bytes and compare byte for byte (canonical encoding: minimal varints,
    dictionary references whenever the value is in the dictionary, float scheme choice, padding). *)
 From Coq Require Import List NArith ZArith Bool PArith Lia FMapPositive.
-From Stef Require Import Bits BitIO Varint Codecs Schema Wire Frame.
+From Stef Require Import Bits BitIO Varint Codecs Schema Wire WireOk Frame.
 Import ListNotations.
 Open Scope N_scope.
 
@@ -45,4 +45,15 @@ Definition frame_encode_trace (t : etree) (fl : N) (st : wst) (recs : list wire)
                let '(st, tr) := acc in
                let st' := enc [] t a st in
                (st', tr ++ [(wst_frame_bits st', wst_strdict_bytes st', wst_tdict_counts st')]))
+            recs (st, []).
+
+(* the precondition of the round-trip theorem evaluated on what the implementation really emits:
+   every record of a frame, with the reader's previous record and a fresh allocation counter *)
+Definition frame_check (sizes : N -> N) (t : etree) (fl : N) (st : wst) (recs : list (rnode * wire))
+  : wst * list bool :=
+  let st := w_restart fl st in
+  fold_left (fun (acc : wst * list bool) pa =>
+               let '(st, oks) := acc in
+               let '(prev, a) := pa in
+               (enc [] t a st, oks ++ [wire_ok sizes [] t prev a st 0]))
             recs (st, []).
